@@ -122,3 +122,28 @@ func C03_Wide() {
 	r.assertAgree("wide")
 	verif.Reach("compared")
 }
+
+// C03_Deep: CONCRETE SHAPES - blocks nested 1..16 deep (16 is the documented
+// limit of the block stack), a field with a symbolic value at every level, a
+// sibling after the deepest block: the whole tree is reproduced.
+func C03_Deep() {
+	n := []int{1, 2, 3, 8, 15, 16}[verif.Choice("depth", 6)]
+	named := verif.Choice("named", 2) == 1
+	src := ""
+	for i := 0; i < n; i++ {
+		src += "def b" + itoa(i)
+		if named {
+			src += " \"n" + itoa(i) + "\""
+		}
+		src += " {\n f" + itoa(i) + " = 1001\n"
+	}
+	for i := 0; i < n; i++ {
+		src += " t = TYPE\n}\n"
+	}
+	src += "def after {\n x = 1002\n}\n"
+	r := runBoth(src, map[string]any{"1001": verif.Int("a"), "1002": verif.Int("b")})
+	verif.Observe("nblocks", len(r.Real.Blocks))
+	verif.Observe("err", errClass(r.Real.Err))
+	r.assertAgree("deep")
+	verif.Reach("compared")
+}
